@@ -126,9 +126,10 @@ void median_filter(SrcView const& src_view, DstView const& dst_view, std::size_t
 
     for (std::size_t channel = 0; channel < extended_view.num_channels(); channel++)
     {
+        // the channel-th channel of the color space in both views: their layouts may differ (rgb and bgr)
         detail::filter_median_impl(
-            nth_channel_view(extended_view, channel),
-            nth_channel_view(dst_view, channel),
+            nth_channel_view(extended_view, detail::physical_channel_index<SrcView>(channel)),
+            nth_channel_view(dst_view, detail::physical_channel_index<DstView>(channel)),
             kernel_size
         );
     }
